@@ -32,3 +32,25 @@ Proof. exact crash_atomic_concrete. Qed.
 
 Example C06_ex : aq_contents (aq_run aq_empty [AAppend [1]; AAppend [2;2]; AFlush; AAppend [3]; AAck 1; AFlush]) = [[2;2]; [3]].
 Proof. reflexivity. Qed.
+
+(* what "the events of all flushes that returned success" are, in terms of the bytes in the file: C05_flush_publishes_the_completed_events
+   (Props/C05.v) - after every successful flush the page payloads as written hold exactly the completed events; the
+   crash atomicity of the flush transaction itself is C01 *)
+From VF Require Import PQWriter PQWriterProofs.
+Theorem C06_flush_publishes_the_completed_events : forall PS, (hdr_len <= payload PS)%nat ->
+  forall pages tail endId root ops o,
+  match tail with Some t => (length (wp_data t) <= payload PS)%nat /\ wp_dirty t = false /\ wp_disk t = Some (wp_data t) | None => True end ->
+  let base := match tail with Some t => wp_data t | None => [] end in
+  let '(s1, rs) := w_run PS (w_init PS pages tail endId root) ops in
+  let '(s2, r) := w_step PS s1 o in
+  let '(done, cur) := spec_step (spec_run ([], []) ops rs) o r in
+  match o, r with
+  | WNext _, WOk (Some (FDone _ _ _, _)) | WFlush _, WOk (Some (FDone _ _ _, _)) =>
+      Forall (fun e => Z.of_nat (length e) < 256 ^ Z.of_nat hdr_len) done ->
+      exists i off, b_hdr (ws_buf s2) = Some (i, off) /\
+        parse_from (payload PS) (flat (payload PS) (map disk_data (cores (ws_hist s2 ++ firstn (Datatypes.S i) (b_pages (ws_buf s2))))))
+                   (length base) (length done) = Some done
+  | _, _ => True
+  end.
+Proof. exact flush_publishes_events. Qed.
+Print Assumptions C06_flush_publishes_the_completed_events.
